@@ -691,7 +691,7 @@ struct Exec {
             if (fired) { ST.sf_fired++; any_sf_fired = true; }
             snprintf(b, sizeof b, " rfc=%d ret=%d%s", m.rfc, r, fired ? " backend-init-fault" : "");
             rec(pre + b, pre + b);
-            if (fired != sf_expected) { viol("harness:setup-fault-model-mismatch", "set-up fault fired/not fired against the model's expectation"); break; }
+            if (fired != sf_expected) { viol("C18:backend-init-state-diverges-from-history", fired ? "eav_setup initialised the IDN backend again although the call history says a context is already live" : "eav_setup did not initialise the IDN backend although the call history says none is live"); break; }
             if (fired) {
                 if (r == 0) viol("C18:backend-init-failure-not-reported", "eav_setup returned 0 although the backend failed to initialise");
                 m.confirmed = -1; m.failed_setup_since = true; m.initialized = false;
